@@ -1,0 +1,12 @@
+//go:build !verif
+
+package verifhook
+
+import "sync"
+
+// Mutex and RWMutex are the standard library types unless the "verif" build
+// tag is set.
+type (
+	Mutex   = sync.Mutex
+	RWMutex = sync.RWMutex
+)
